@@ -51,6 +51,8 @@ def leaf_lines(kind, n):
         "table-ragged": ["| a | b |", "|---|---|", "| 1 |", "| 1 | 2 | 3 |"],
         "code": ["```", "C%d" % n, "```"],
         "inline-html": ["I%d <b>bold</b> and <i>it</i>" % n],
+        "target-a-titled": ["(a)=", "## Titled %d" % n],
+        "link-a-twice": ["L%d [](#a) and [](#a) and [](#a)" % n],
         "target-n": ["(n)=", "T%d after target n" % n],
         "h1-n": ["# n"],
         "fnref-a": ["F%d ref[^a]" % n],
@@ -78,7 +80,7 @@ def leaf_lines(kind, n):
 
 DIRS = ["d-figure", "d-figure-bad", "d-list-table", "d-list-table-ragged", "d-table", "d-csv", "d-topic", "d-sidebar", "d-epigraph", "d-parsed-literal", "d-container", "d-rubric", "d-math", "d-code",
         "d-admon-title", "d-evalrst", "d-unknown", "d-compound"]
-NAMES = ["fnref", "fndef", "target-n", "h1-n", "fnref-a", "fndef-a", "link-a", "target-a"]
+NAMES = ["fnref", "fndef", "target-n", "h1-n", "fnref-a", "fndef-a", "link-a", "target-a", "target-a-titled", "link-a-twice"]
 
 
 def gen_blocks(c, depth, nblocks, counter, leafs=None):
